@@ -57,4 +57,16 @@ def handlePart (toks : List String) : String :=
     | none => "bad-op"
   | _ => "bad-op"
 
+/-- `c13x <code> <msghex|-> <datahex|->` → `1` iff the hypotheses of `emit_parse_roundtrip_error`
+hold of this error object (code text, data, and the whole marshalled text) -/
+def handleErrParts (toks : List String) : String :=
+  match toks with
+  | [c, m, d] =>
+    match c.toInt?, opt m, opt d with
+    | some code, some msg, some data =>
+      let ct := (toString code).toUTF8.toList
+      if partB ct && int32Literal ct && (data == [] || partB data) && partB (errorJSON code msg data) then "1" else "0"
+    | _, _, _ => "bad-op"
+  | _ => "bad-op"
+
 end Jrpc.Oracle.C13
